@@ -6,7 +6,8 @@ from __future__ import annotations
 CLAUSES = [
     ("index with ANY row selection: int | slice | list | range | index tensor | bool mask",
      "keys raises:*, no-raise:*, wrong-rows:*", "gen_index kinds int/slice/list/range/tensor/mask; tensors as int64 and "
-     "int32, contiguous and strided; tf[ix] and tf.__getitem__(ix)"),
+     "int32, contiguous and strided; ranges whose entries run through zero (negative entries wrap, unlike a slice); "
+     "tf[ix] and tf.__getitem__(ix)"),
      ("returns a frame with the same columns", "keys names-changed, wrong-type, props-wrong (num_cols, stypes)", "every case"),
     ("every feature of every stype (dense / ragged / dict of ragged) and the target hold exactly the selected rows in order",
      "keys incoherent-rows:*, wrong-rows:*", "frames over random subsets of the nine stypes, with / without y"),
@@ -51,6 +52,8 @@ TRUSTED = [
     "the ragged columns use the C05 refinement lemmas (Proofs/MntProofs.v mnt_select_refines_proof, Proofs/MetProofs.v "
     "met_select_refines_proof) -- no section hypothesis is left; the theorem statement itself is additionally evaluated "
     "on every correspondence case (c07_stmt)",
+    "store model coq/Model/FrameStore.v of _normalize_index (clone, then in-place +=): its executable form "
+    "c07_index_store_check is compared with the content of the caller's index tensor after every selection",
     "every index object passed to a selection is snapshotted and must be unchanged afterwards; one index object is "
     "reused across the steps of a chain and across two frames (shared_index cases)",
     "harness/c07.py + harness/frames.py + harness/ragged.py (generator, per-column nested-list oracle, Coq printer)",
@@ -81,6 +84,14 @@ def gen_chain(rng, n, clean_p=0.78):
             # the overshooting slice of a manual batching loop
             a = rng.randint(0, cur)
             ix = {"t": "slice", "a": a, "b": a + rng.randint(1, cur + 3), "s": None}
+        if rng.chance(0.08) and cur > 0:
+            # a range enumerates its literal integers: negative ones wrap as row indices (it is NOT a slice)
+            if rng.chance(0.7):
+                a = rng.randint(-cur, -1)
+                ix = {"t": "range", "a": a, "b": rng.randint(a + 1, cur), "s": rng.pick([1, 1, 2])}
+            else:
+                a = rng.randint(0, cur - 1)
+                ix = {"t": "range", "a": a, "b": rng.randint(-cur - 1, a - 1), "s": rng.pick([-1, -1, -2])}
         chain.append(ix)
         try:
             cur = len(R.ref_positions(ix, cur))
@@ -168,7 +179,7 @@ def exhaustive(rng):
 
 
 def generate(rng, tier):
-    n = 1000 if tier == "quick" else 20000
+    n = 900 if tier == "quick" else 20000
     cases = [gen_case(rng, tier) for _ in range(n)]
     if tier == "thorough":
         cases += exhaustive(rng)
@@ -467,7 +478,7 @@ def stats(cases, obss):
     d = {"total": 0, "kinds": {}, "stypes": {}, "with_y": 0, "explicit_num_rows": 0, "featureless": 0, "rows": {},
          "index_kinds": {}, "chain_len": {}, "error_cases": 0, "through_empty": 0, "overshooting_slices": 0,
          "shared_index_cases": 0, "second_frame_cases": 0, "ctor_forms": {}, "via": {}, "call": {},
-         "index_repr": {"int32": 0, "strided": 0, "int64-contiguous": 0}}
+         "index_repr": {"int32": 0, "strided": 0, "int64-contiguous": 0}, "wrapping_ranges": 0}
     for c, o in zip(cases, obss):
         if c is None or not isinstance(o, dict):
             continue
@@ -481,6 +492,9 @@ def stats(cases, obss):
         for k, v in (("ctor_forms", fr.get("ctor", "pos")), ("via", str(c.get("via"))), ("call", c.get("call", "[]"))):
             d[k][v] = d[k].get(v, 0) + 1
         for ix in c["chain"]:
+            if ix["t"] == "range":
+                ents = list(range(ix["a"], ix["b"], ix["s"]))
+                d["wrapping_ranges"] += bool(ents) and min(ents) < 0 <= max(ents)
             if ix["t"] in ("tensor", "mask"):
                 d["index_repr"]["int32"] += ix.get("dtype") == "int32"
                 d["index_repr"]["strided"] += bool(ix.get("nc"))
@@ -524,6 +538,7 @@ def sanity(cases, obss):
                     ("featureless", "no feature-less frame"), ("through_empty", "no chain passes through an empty frame"),
                     ("overshooting_slices", "no overshooting slice"),
                     ("shared_index_cases", "no case reuses one index object"),
+                    ("wrapping_ranges", "no range running from negative to non-negative entries"),
                     ("second_frame_cases", "no index object applied to a second frame")):
         if d[k] == 0:
             probs.append(what)
@@ -548,6 +563,17 @@ def coq_term(case, obs):
     chain = C.clist(case["chain"][:len(steps)], R.coq_index)
     o = C.clist([obs["start"]] + [s.get("frame") if s["ok"] else None for s in steps], F.coq_obs)
     term = f"(c07_check {expr} {chain} {o} && c07_stmt {expr} {chain})"
+    # executable form of Props/C07.v getitem_leaves_caller_index: the store model's content of the caller's index
+    # tensor after the selection = what the implementation left in it
+    containers = sum(len(f["keys"]) if f["kind"] == "dict" else (1 if f["kind"] in ("mnt", "met") else 0)
+                     for f in case["frame"]["feats"])
+    n = obs["start"]["len"]
+    for ix, st in zip(case["chain"], steps):
+        if ix["t"] == "tensor" and isinstance(st.get("index_after"), list):
+            term = (f"({term} && c07_index_store_check {C.clist(ix['l'], C.cz)} {containers}%nat {n}%nat "
+                    f"{C.clist(st['index_after'], C.cz)})")
+        if st["ok"] and "frame" in st:
+            n = st["frame"]["len"]
     if case.get("second") is not None and "second" in obs and "read_exc" not in obs["second"]:
         e2 = F.coq_frame(case["second"])
         c2 = C.clist([case["chain"][0]], R.coq_index)
